@@ -428,7 +428,7 @@ def search_witness(repo, contract, seed, budget=20):
     if b is None:
         return dict(error="replay crate does not build against this tree: " + (err or ""))
     env = dict(os.environ)
-    if contract.startswith("run_") or contract.startswith("cli"):
+    if contract.startswith("run_") or contract.startswith("cli") or contract in ("bisync", "apply", "copy_atomic") or contract.startswith("Archive::"):
         cb = cli_bin(repo)
         if cb is None:
             return dict(error="the CLI of this tree does not build")
@@ -464,6 +464,9 @@ def twin_validate(pid, spec, repo, tier, seed, out):
             cases = int(ln.split()[1])
         if ln.startswith("WITNESS "):
             w = json.loads(ln[len("WITNESS "):])
+            if spec.get("only_re") and not re.search(spec["only_re"], w.get("what", "")):
+                out.notes.append("twin %s: a witness for another property's clause was found and is not reported here: %s" % (spec["name"], w.get("what", "")[:160]))
+                continue
             out.violations.append(dict(unit="twin", function=spec["name"], repo_fn=spec.get("repo_fn"),
                                        messages=[dict(kind="assumed contract refuted on the real code", message=w.get("what", ""), at=spec.get("repo_fn", ""), text="", labels=[])],
                                        verifier_output="twin validation of assumed contract `%s`: real code disagrees with the contract's executable twin" % spec["name"],
@@ -482,19 +485,30 @@ def load_known():
     return json.load(open(p))
 
 
-def finding_matches(f, pid, v):
+def finding_matches_clause(f, pid, v, m):
+    """does known finding f cover the failing clause m of violation v?"""
     if f.get("property") != pid:
         return False
     if f.get("function") and not v["function"].endswith(f["function"]):
         return False
-    if f.get("message_re"):
-        blob = json.dumps(v["messages"]) + v.get("verifier_output", "")
-        if not re.search(f["message_re"], blob):
-            return False
-    if f.get("at_re"):
-        if not any(re.search(f["at_re"], m.get("at", "") + " " + m.get("text", "")) for m in v["messages"]):
-            return False
+    blob = " ".join([m.get("message", ""), m.get("text", ""), m.get("at", ""), m.get("kind", "")] + [l.get("text", "") for l in m.get("labels", [])])
+    if f.get("clause_re") and not re.search(f["clause_re"], blob):
+        return False
     return True
+
+
+def split_known(known, pid, v):
+    """-> (list of matched findings, list of unmatched clause messages)"""
+    hits, rest = [], []
+    msgs = v["messages"] or [dict(kind="(no clause detail)", message="", at="", text="", labels=[])]
+    for m in msgs:
+        kf = next((f for f in known.get("findings", []) if finding_matches_clause(f, pid, v, m)), None)
+        if kf:
+            if kf not in hits:
+                hits.append(kf)
+        else:
+            rest.append(m)
+    return hits, rest
 
 
 def main():
@@ -550,11 +564,16 @@ def main():
     known = load_known()
     real = []
     for v in out.violations:
-        kf = next((f for f in known.get("findings", []) if finding_matches(f, pid, v)), None)
-        if kf:
+        hits, rest = split_known(known, pid, v)
+        for kf in hits:
             print("KNOWN-FINDING: property=%s %s" % (pid, kf["what"]))
-            v["known_finding"] = kf["what"]
-        else:
+        if hits:
+            v["known_finding"] = "; ".join(k["what"] for k in hits)
+        if rest and v["messages"]:
+            if hits:
+                v = dict(v, messages=rest)     # report only the clauses no finding covers
+            real.append(v)
+        elif not hits:
             real.append(v)
     os.makedirs(os.path.join(VERIF, "replays"), exist_ok=True)
     for v in real:
@@ -613,12 +632,16 @@ def thorough_extra(pid, spec, repo, out):
 
 def write_evidence(P, out, wall, nviol):
     os.makedirs(os.path.join(VERIF, "evidence"), exist_ok=True)
-    nd = sum(1 for o in out.obligations if o["success"])
+    kf_fns = {(v["unit"], v["function"]) for v in out.violations if v.get("known_finding")}
+    claimed = [o for o in out.obligations if not (not o["success"] and (o["unit"], o["function"]) in kf_fns)]
+    kf_obl = [o for o in out.obligations if o not in claimed]
+    nd = sum(1 for o in claimed if o["success"])
     samples = []
-    for o in sorted(out.obligations, key=lambda o: (o["unit"], o["function"])):
+    for o in sorted(claimed, key=lambda o: (o["unit"], o["function"])):
         samples.append(o)
     cov = dict(
-        obligations=len(out.obligations), discharged=nd,
+        obligations=len(claimed), discharged=nd,
+        known_finding_obligations=[dict(o, finding=next((v["known_finding"] for v in out.violations if (v["unit"], v["function"]) == (o["unit"], o["function"]) and v.get("known_finding")), "")) for o in kf_obl],
         checker_cmd="; ".join(out.cmds) if out.cmds else "./check %s" % out.pid,
         trusted_base=sorted(set(out.trusted)) + P.get("trusted", []),
         samples=samples[:400],
@@ -656,7 +679,7 @@ def do_replay(path, repo):
         print("replay crate does not build: " + str(err))
         return 2
     env = dict(os.environ)
-    if str(w.get("kind", "")).startswith("cli"):
+    if str(w.get("kind", "")).startswith("cli") or str(w.get("kind", "")).startswith("bisync"):
         env["COPIA_BIN"] = cli_bin(repo) or ""
     rc, so, se, _ = run([b, "run", json.dumps(w)], timeout=120, env=env)
     sys.stdout.write(so)
